@@ -50,11 +50,14 @@ Proof.
   - exists O, f. simpl. split; auto. split; lia.
 Qed.
 
+Lemma count_true_le' : forall d, count_true d <= N.of_nat (length d).
+Proof. induction d; simpl; [lia|]. destruct a; lia. Qed.
+
 Lemma count_true_lt : forall d i, nth i d false = false -> (i < length d)%nat ->
   count_true d < N.of_nat (length d).
 Proof.
   induction d; intros [|i] H Hi; simpl in *; try lia.
-  - subst a. pose proof (count_true_le d). lia.
+  - subst a. pose proof (count_true_le' d). lia.
   - pose proof (IHd i H ltac:(lia)). destruct a; lia.
 Qed.
 
@@ -92,7 +95,8 @@ Proof.
   destruct (layout_offsets _ _ _ _ F1) as (sz & pad & _ & _ & Es & _ & Er).
   assert (Hr2 : f_r2 f = size_chunks c).
   { unfold set_range in Er. destruct (N.eqb_spec cs 0); [lia|]. destruct (N.eqb_spec sz 0); [lia|].
-    inversion Er. unfold size_chunks. simpl c_tot in *. simpl c_cs. rewrite <- Es, F3. reflexivity. }
+    assert (E2 : f_r2 f = u32 ((f_off f + sz + cs - 1) / cs)) by congruence.
+    rewrite E2. unfold size_chunks. rewrite <- Es, F3. reflexivity. }
   pose proof (inc_completed_some (c_files c) (s_fcomp s) idx j f Hfl F1 ltac:(lia)) as K.
-  destruct (inc_completed (c_files c) (s_fcomp s) idx); [reflexivity|congruence].
+  simpl in K. destruct (inc_completed (split cs 0 lay) (s_fcomp s) idx); [reflexivity|congruence].
 Qed.
